@@ -145,10 +145,12 @@ class C12(Check):
         reps2, _ = scopes.structural_scope(scopes.C2_sub(), scopes.SIG2, 2, ("strong", "weak-finite", "weak-nofinite"), seed, 1, minsize=2)
         reps3, _ = scopes.structural_scope(scopes.L3, scopes.SIG3, 3, ("strong", "weak-finite", "weak-nofinite"), seed, 1)
         if quick:
-            reps2 = reps2[seed % 4::4]
-            reps3 = [r for r in reps3 if len(r[0]) >= 2][seed % 3::3]
+            reps2 = reps2[seed % 5::5]
+            reps3 = [r for r in reps3 if len(r[0]) >= 2][seed % 4::4]
         reps2d, _ = scopes.structural_scope(scopes.L3, scopes.SIG3, 2, ("strong",), seed, 1, minsize=2)
         dups = [[p_[0], p_[0], p_[1]] for p_, _c in reps2d]      # the same conditional twice
+        if quick:
+            dups = dups[seed % 2::2]
         q2 = scopes.semclass_reps(scopes.C2, scopes.SIG2)[3::7]
         q3 = scopes.literal_queries3()[::8]
         self.nb = len(reps2) + len(reps3)
@@ -161,7 +163,8 @@ class C12(Check):
             sems = [forms.sem(x, scopes.SIG3) for x in conds]
             tq = [scopes.render_query(scopes.SIG3, vf) for vf in scopes.type_queries(sems, 8, 2, 1)]
             T = [("rewrite-first", k) for k in ("dneg", "cons_and_ante", "andtop")] + [("order", (2, 1, 0)), ("keys", "shift")]
-            out.append((scopes.SIG3, conds, "strong", tq, T))
+            for t in T:
+                out.append((scopes.SIG3, conds, "strong", tq, [t]))
         for conds, cls in reps3:
             T = transforms_for(len(conds), scopes.SIG3, quick)
             pairs = [("pair", T[0], ("rewrite-base", "demorgan")), ("pair", ("keys", "sparse0"), ("sig", "extend")),
@@ -171,6 +174,7 @@ class C12(Check):
             tq = [scopes.render_query(scopes.SIG3, vf) for vf in scopes.type_queries(sems, 8, 1, 1)][1::12]
             for i in range(0, len(T), 6):
                 out.append((scopes.SIG3, conds, cls, q3 + tq, T[i:i + 6]))
+        out.sort(key=lambda t: -len(t[3]) * len(t[4]))     # big tasks first
         return out
 
     def run(self, task):
